@@ -21,8 +21,29 @@ package decoder
 //@   loop 1 invariant isnil(stream) || (sameblock(stream, data) && nochr(stream, ' ') && off(stream) + len(stream) < off(data) && off(stream) > off(row.Time) + len(row.Time))
 //@   loop 1 invariant sameblock(row.Time, old(data)) && off(row.Time) == off(old(data)) && nochr(row.Time, ' ') && len(row.Time) < len(old(data)) && old(data)[len(row.Time)] == ' '
 
+// DecodePostgres, faithfulness ("a well-formed line yields exactly its fields"; every
+// field is a piece of the caller's line at the place the format defines):
+//   T1 T2 T3 [PID] ... [N] ...=CLIENT,...=DB,...=USER LEVEL  LOG
+// Time is the line up to its third space; PID the bytes between the byte after that
+// space and the first ']'; the message number lies between the next '[' and the next
+// ']'; client / db / user each start behind the first '=' and end before the first ','
+// (user: before the first ' '); the log is everything from two bytes behind the next
+// space to the end of the line.  Positions are relative to the caller's slice `data`.
+
 //@ func DecodePostgres
 //@   modifies data
+//@   ensures unchanged(data)
+//@   ensures result1 == nil ==> sameblock(result0.Time, data) && off(result0.Time) == off(data) && len(result0.Time) < len(data) && data[len(result0.Time)] == ' '
+//@   ensures result1 == nil ==> sameblock(result0.PID, data) && off(result0.PID) == off(data) + len(result0.Time) + 2 && nochr(result0.PID, ']') && data[len(result0.Time) + 2 + len(result0.PID)] == ']'
+//@   ensures result1 == nil ==> sameblock(result0.PIDMessageNumber, data) && off(result0.PIDMessageNumber) > off(result0.PID) + len(result0.PID) + 1 && nochr(result0.PIDMessageNumber, ']')
+//@   ensures result1 == nil ==> data[off(result0.PIDMessageNumber) - off(data) - 1] == '[' && data[off(result0.PIDMessageNumber) - off(data) + len(result0.PIDMessageNumber)] == ']'
+//@   ensures result1 == nil ==> sameblock(result0.Client, data) && off(result0.Client) > off(result0.PIDMessageNumber) + len(result0.PIDMessageNumber) + 1 && nochr(result0.Client, ',')
+//@   ensures result1 == nil ==> data[off(result0.Client) - off(data) - 1] == '=' && data[off(result0.Client) - off(data) + len(result0.Client)] == ','
+//@   ensures result1 == nil ==> sameblock(result0.DB, data) && off(result0.DB) > off(result0.Client) + len(result0.Client) + 1 && nochr(result0.DB, ',')
+//@   ensures result1 == nil ==> data[off(result0.DB) - off(data) - 1] == '=' && data[off(result0.DB) - off(data) + len(result0.DB)] == ','
+//@   ensures result1 == nil ==> sameblock(result0.User, data) && off(result0.User) > off(result0.DB) + len(result0.DB) + 1 && nochr(result0.User, ' ')
+//@   ensures result1 == nil ==> data[off(result0.User) - off(data) - 1] == '=' && data[off(result0.User) - off(data) + len(result0.User)] == ' '
+//@   ensures result1 == nil ==> sameblock(result0.Log, data) && off(result0.Log) >= off(result0.User) + len(result0.User) + 3 && off(result0.Log) + len(result0.Log) == off(data) + len(data)
 
 //@ func spaceSplit
 //@   pure
@@ -32,47 +53,307 @@ package decoder
 //@   loop 1 invariant 0 <= i && (isnil(res) || fresh(res))
 //@   loop 1 invariant allrange(res, 0, i) && allrange(res, 0, len(b)) && increasing(res)
 //@   loop 1 invariant forall k :: 0 <= k && k < len(res) ==> b[res[k]] == ' '
+//@   ensures len(result) <= limit || len(result) == 0
+//@   ensures len(result) > 0 ==> nochr(b[:result[0]], ' ')
+//@   ensures (len(result) > 1 ==> nochr(b[result[0] + 1:result[1]], ' ')) && (len(result) > 2 ==> nochr(b[result[1] + 1:result[2]], ' '))
+//@   ensures (len(result) > 3 ==> nochr(b[result[2] + 1:result[3]], ' ')) && (len(result) > 4 ==> nochr(b[result[3] + 1:result[4]], ' '))
+//@   ensures len(result) < limit && len(result) > 0 ==> nochr(b[result[len(result) - 1] + 1:], ' ')
+//@   ensures len(result) == 0 && limit > 0 ==> nochr(b, ' ')
+//@   loop 1 invariant len(res) <= limit || len(res) == 0
+//@   loop 1 invariant len(res) > 0 ==> nochr(b[:res[0]], ' ') && nochr(b[res[len(res) - 1] + 1:i], ' ') && res[len(res) - 1] < i
+//@   loop 1 invariant len(res) == 0 ==> nochr(b[:i], ' ')
+//@   loop 1 invariant (len(res) > 1 ==> nochr(b[res[0] + 1:res[1]], ' ')) && (len(res) > 2 ==> nochr(b[res[1] + 1:res[2]], ' '))
+//@   loop 1 invariant (len(res) > 3 ==> nochr(b[res[2] + 1:res[3]], ' ')) && (len(res) > 4 ==> nochr(b[res[3] + 1:res[4]], ' '))
+
+// nginx error Decode, faithfulness.  DATE TIME [LEVEL] PID#TID: *CID MESSAGE
+// s0..s4 are the positions of the first five spaces of the line (what spaceSplit
+// returned; ns: how many it found), relative to the line without its newline.
+//   Time    = the line up to its second space (date, one space, time);
+//   Level   = the third token without its first and last byte (the brackets);
+//   PID     = a copy of the bytes of the fourth token up to its first '#';
+//   CID     = the fifth token without its leading '*', when it has one;
+//   Message = what extractCustomFields keeps of the rest (the whole rest without the
+//             custom-field option: see its contract).
+// (TID is a copy of the bytes between '#' and ':' with further '#' skipped: only its
+// freshness is stated.)
 
 //@ func (*nginxErrorDecoder).Decode
 //@   pure
-//@   loop 1 invariant 0 <= i
+//@   ghost ns int = 0
+//@   ghost s0 int = 0
+//@   ghost s1 int = 0
+//@   ghost s2 int = 0
+//@   ghost s3 int = 0
+//@   ghost s4 int = 0
+//@   ghost gmoff int = 0
+//@   ghost gmlen int = 0
+//@   ghost gcall int = 0
+//@   ghost gargoff int = 0
+//@   ensures typeis(result0, "github.com/ozontech/file.d/decoder.NginxErrorRow")
+//@   ensures result1 == nil ==> ns >= 4 && sameblock(row.Time, data) && off(row.Time) == off(data) && len(row.Time) == s1
+//@   ensures result1 == nil ==> data[s0] == ' ' && nochr(data[:s0], ' ') && nochr(data[s0 + 1:s1], ' ') && data[s1] == ' '
+//@   ensures result1 == nil ==> sameblock(row.Level, data) && off(row.Level) == off(data) + s1 + 2 && len(row.Level) == s2 - s1 - 3 && nochr(data[s1 + 1:s2], ' ') && data[s2] == ' '
+//@   ensures result1 == nil ==> nochr(data[s2 + 1:s3], ' ') && data[s3] == ' ' && len(row.PID) < s3 - s2 - 1
+//@   ensures result1 == nil ==> seqeq(row.PID, data, s2 + 1) && nochr(row.PID, '#') && nochr(row.PID, ':') && data[s2 + 1 + len(row.PID)] == '#'
+//@   ensures result1 == nil && len(row.CID) > 0 ==> ns == 5 && sameblock(row.CID, data) && off(row.CID) == off(data) + s3 + 2 && len(row.CID) == s4 - s3 - 2 && data[s3 + 1] == '*' && nochr(row.CID, ' ')
+//@   ensures result1 == nil && gcall == 1 ==> off(row.Message) == gmoff && len(row.Message) == gmlen
+//@   ensures result1 == nil && gcall == 1 ==> gargoff == off(data) + ite(ns == 5 && data[s3 + 1] == '*', s4, s3) + 1
+//@   ensures result1 == nil && gcall == 1 ==> sameblock(row.Message, data) && off(row.Message) == gargoff
+//@   ensures result1 == nil && gcall == 1 && !d.params.withCustomFields ==> off(row.Message) + len(row.Message) == off(data) + len(data) - ite(data[len(data) - 1] == '\n', 1, 0)
+//@   ensures result1 == nil && gcall == 0 ==> len(row.Message) == 0 && isnil(row.CustomFields)
+//@   ensures result1 == nil && gcall == 0 ==> s3 + 1 >= len(data) - ite(len(data) > 0 && data[len(data) - 1] == '\n', 1, 0) || (ns == 5 && data[s3 + 1] == '*' && s4 + 1 >= len(data) - ite(len(data) > 0 && data[len(data) - 1] == '\n', 1, 0))
+//@   loop 1 invariant 0 <= i && s2 + 1 <= i && i <= s3 && ns >= 4 && ns == len(split) && s2 == split[2] && s3 == split[3] && s1 == split[1] && s0 == split[0] && (ns == 5 ==> s4 == split[4])
 //@   loop 1 invariant isnil(row.TID) || fresh(row.TID)
 //@   loop 1 invariant isnil(row.PID) || fresh(row.PID)
 //@   loop 1 invariant unchanged(data)
-//@   callee extractCustomFields(d)
+//@   loop 1 invariant isnil(row.PID) || isnil(row.TID) || disjoint(row.PID, row.TID)
+//@   loop 1 invariant sameblock(row.Time, data) && off(row.Time) == off(data) && len(row.Time) == s1 && sameblock(row.Level, data) && off(row.Level) == off(data) + s1 + 2 && len(row.Level) == s2 - s1 - 3
+//@   loop 1 invariant len(row.CID) == 0 && len(row.Message) == 0 && isnil(row.CustomFields) && gcall == 0 && s3 < len(data) && sameblock(data, old(data)) && off(data) == off(old(data))
+//@   loop 1 invariant len(data) == len(old(data)) - ite(len(old(data)) > 0 && old(data)[len(old(data)) - 1] == '\n', 1, 0)
+//@   loop 1 invariant data[s0] == ' ' && nochr(data[:s0], ' ') && nochr(data[s0 + 1:s1], ' ') && data[s1] == ' ' && nochr(data[s1 + 1:s2], ' ') && data[s2] == ' ' && nochr(data[s2 + 1:s3], ' ') && data[s3] == ' '
+//@   loop 1 invariant ns == 5 ==> nochr(data[s3 + 1:s4], ' ') && data[s4] == ' ' && s3 < s4 && s4 < len(data)
+//@   loop 1 invariant !pidComplete ==> len(row.PID) == i - s2 - 1 && seqeq(row.PID, data, s2 + 1) && nochr(row.PID, '#') && nochr(row.PID, ':')
+//@   loop 1 invariant pidComplete ==> len(row.PID) < i - s2 - 1 && seqeq(row.PID, data, s2 + 1) && nochr(row.PID, '#') && nochr(row.PID, ':') && data[s2 + 1 + len(row.PID)] == '#'
+//@   callee spaceSplit(b, n) (r)
+//@     requires n == 5
+//@     set ns := len(r)
+//@     set s0 := r[0]
+//@     set s1 := r[1]
+//@     set s2 := r[2]
+//@     set s3 := r[3]
+//@     set s4 := r[4]
+//@   callee extractCustomFields(b) (m, f)
+//@     requires gcall == 0 && sameblock(b, data) && off(b) + len(b) == off(data) + len(data)
 //@     pure
+//@     set gcall := gcall + 1
+//@     set gargoff := off(b)
+//@     set gmoff := off(m)
+//@     set gmlen := len(m)
+
+// extractCustomFields: without nginx_with_custom_fields the message is the text it was
+// given and there are no custom fields; with it, the message is a prefix of that text
+// (trailing ", key: value" groups are cut off and returned as fields - Go map, not modelled).
 
 //@ func (*nginxErrorDecoder).extractCustomFields
 //@   pure
+//@   ensures !d.params.withCustomFields ==> result0 == data && isnil(result1)
+//@   ensures sameblock(result0, data) && off(result0) == off(data) && len(result0) <= len(data)
+//@   ensures d.params.withCustomFields ==> !isnil(result1)
+//@   loop 1 invariant sameblock(data, old(data)) && off(data) == off(old(data)) && len(data) <= len(old(data)) && !isnil(fields)
 
 //@ func syslogParsePriority
 //@   pure
 //@   ensures result2 == nil ==> 2 <= result1 && result1 <= 4 && result1 < len(data) && 0 <= result0 && result0 <= 191
+//@   ensures result2 == nil ==> data[0] == '<' && data[result1] == '>' && allchr(data[1:result1], '0', '9')
+//@   ensures result2 == nil && result1 == 2 ==> result0 == data[1] - '0'
+//@   ensures result2 == nil && result1 == 3 ==> result0 == (data[1] - '0') * 10 + (data[2] - '0')
+//@   ensures result2 == nil && result1 == 4 ==> result0 == (data[1] - '0') * 100 + (data[2] - '0') * 10 + (data[3] - '0')
+
+// priority = facility * 8 + severity: the facility is p / 8, the severity p % 8; as a
+// decimal number in the "number" format, by name otherwise (names as in the code's
+// tables; RFC 5424 table 1 / 2 order).
 
 //@ func syslogFacilityFromPriority
 //@   pure
-
-//@ func syslogFacilityString
-//@   pure
-
-//@ func syslogSeverityString
-//@   pure
+//@   requires p >= 0
+//@   ghost nnum int = 0
+//@   ghost nstr int = 0
+//@   ghost gr seq = ""
+//@   ensures format == "number" ==> nnum == 1 && nstr == 0
+//@   ensures format != "number" ==> nnum == 0 && nstr == 1
+//@   ensures result == gr
+//@   callee Itoa(n) (r)
+//@     requires n == p / 8 && nnum == 0
+//@     pure
+//@     set nnum := nnum + 1
+//@     set gr := r
+//@   callee syslogFacilityString(f) (r)
+//@     requires f == p / 8 && nstr == 0
+//@     set nstr := nstr + 1
+//@     set gr := r
 
 //@ func syslogSeverityFromPriority
 //@   pure
+//@   requires p >= 0
+//@   ghost nnum int = 0
+//@   ghost nstr int = 0
+//@   ghost gr seq = ""
+//@   ensures format == "number" ==> nnum == 1 && nstr == 0
+//@   ensures format != "number" ==> nnum == 0 && nstr == 1
+//@   ensures result == gr
+//@   callee Itoa(n) (r)
+//@     requires n == p % 8 && nnum == 0
+//@     pure
+//@     set nnum := nnum + 1
+//@     set gr := r
+//@   callee syslogSeverityString(f) (r)
+//@     requires f == p % 8 && nstr == 0
+//@     set nstr := nstr + 1
+//@     set gr := r
+
+//@ func syslogFacilityString
+//@   pure
+//@   ensures (f == 0 ==> result == "KERN") && (f == 1 ==> result == "USER") && (f == 2 ==> result == "MAIL") && (f == 3 ==> result == "DAEMON")
+//@   ensures (f == 4 ==> result == "AUTH") && (f == 5 ==> result == "SYSLOG") && (f == 6 ==> result == "LPR") && (f == 7 ==> result == "NEWS")
+//@   ensures (f == 8 ==> result == "UUCP") && (f == 9 ==> result == "CRON") && (f == 10 ==> result == "AUTHPRIV") && (f == 11 ==> result == "FTP")
+//@   ensures (f == 12 ==> result == "NTP") && (f == 13 ==> result == "SECURITY") && (f == 14 ==> result == "CONSOLE") && (f == 15 ==> result == "SOLARISCRON")
+//@   ensures (f == 16 ==> result == "LOCAL0") && (f == 17 ==> result == "LOCAL1") && (f == 18 ==> result == "LOCAL2") && (f == 19 ==> result == "LOCAL3")
+//@   ensures (f == 20 ==> result == "LOCAL4") && (f == 21 ==> result == "LOCAL5") && (f == 22 ==> result == "LOCAL6") && (f == 23 ==> result == "LOCAL7")
+//@   ensures f < 0 || f > 23 ==> result == "UNKNOWN"
+
+//@ func syslogSeverityString
+//@   pure
+//@   ensures (s == 0 ==> result == "EMERG") && (s == 1 ==> result == "ALERT") && (s == 2 ==> result == "CRIT") && (s == 3 ==> result == "ERROR")
+//@   ensures (s == 4 ==> result == "WARN") && (s == 5 ==> result == "NOTICE") && (s == 6 ==> result == "INFO") && (s == 7 ==> result == "DEBUG")
+//@   ensures s < 0 || s > 7 ==> result == "UNKNOWN"
+
+// RFC3164 Decode, faithfulness.  For an accepted line  <PRI>TIMESTAMP HOST APP[PROC]: MSG
+// every field of the row (`row`: the local that is returned) is a piece of the
+// caller's line `data`, at the place the format defines:
+//   Priority  = the 1-3 digits between '<' and the first '>';
+//   Timestamp = the 15 bytes behind '>', followed by a space;
+//   Hostname  = from there to the next space;
+//   AppName   = from there to the first of '[', ':', ' ';
+//   ProcID    = between that '[' and the next ']' (which ':' follows); absent otherwise;
+//   Message   = the rest of the line (without its trailing newline), minus one leading space.
+// Facility / Severity are computed from the decoded priority with the configured formats.
+// Assumed about bytes.IndexAny (documented behaviour, listed): the index it returns is the
+// first byte that is one of the given characters.
 
 //@ func (*syslogRFC3164Decoder).Decode
 //@   pure
+//@   ghost gpri int = 0
+//@   ghost gfac seq = ""
+//@   ghost gsev seq = ""
+//@   ensures typeis(result0, "github.com/ozontech/file.d/decoder.SyslogRFC3164Row")
+//@   ensures result1 == nil ==> sameblock(row.Priority, data) && off(row.Priority) == off(data) + 1 && 1 <= len(row.Priority) && len(row.Priority) <= 3
+//@   ensures result1 == nil ==> data[0] == '<' && data[1 + len(row.Priority)] == '>' && allchr(row.Priority, '0', '9')
+//@   ensures result1 == nil ==> row.Facility == gfac && row.Severity == gsev
+//@   ensures result1 == nil ==> sameblock(row.Timestamp, data) && off(row.Timestamp) == off(row.Priority) + len(row.Priority) + 1 && len(row.Timestamp) == 15 && data[off(row.Timestamp) - off(data) + 15] == ' '
+//@   ensures result1 == nil ==> sameblock(row.Hostname, data) && off(row.Hostname) == off(row.Timestamp) + 16 && nochr(row.Hostname, ' ') && data[off(row.Hostname) - off(data) + len(row.Hostname)] == ' '
+//@   ensures result1 == nil ==> sameblock(row.AppName, data) && off(row.AppName) == off(row.Hostname) + len(row.Hostname) + 1 && nochr(row.AppName, '[') && nochr(row.AppName, ':') && nochr(row.AppName, ' ')
+//@   ensures result1 == nil ==> off(row.AppName) + len(row.AppName) < off(data) + len(data)
+//@   ensures result1 == nil ==> data[off(row.AppName) - off(data) + len(row.AppName)] == '[' || data[off(row.AppName) - off(data) + len(row.AppName)] == ':' || data[off(row.AppName) - off(data) + len(row.AppName)] == ' '
+//@   ensures result1 == nil && data[off(row.AppName) - off(data) + len(row.AppName)] == '[' ==> sameblock(row.ProcID, data) && off(row.ProcID) == off(row.AppName) + len(row.AppName) + 1 && nochr(row.ProcID, ']')
+//@   ensures result1 == nil && data[off(row.AppName) - off(data) + len(row.AppName)] == '[' ==> data[off(row.ProcID) - off(data) + len(row.ProcID)] == ']' && data[off(row.ProcID) - off(data) + len(row.ProcID) + 1] == ':'
+//@   ensures result1 == nil && data[off(row.AppName) - off(data) + len(row.AppName)] != '[' ==> len(row.ProcID) == 0
+//@   ensures result1 == nil ==> sameblock(row.Message, data) && off(row.Message) + len(row.Message) == off(data) + len(data) - ite(data[len(data) - 1] == '\n', 1, 0)
+//@   ensures result1 == nil && data[off(row.AppName) - off(data) + len(row.AppName)] == '[' ==> off(row.Message) == off(row.ProcID) + len(row.ProcID) + 2 || (off(row.Message) == off(row.ProcID) + len(row.ProcID) + 3 && data[off(row.Message) - off(data) - 1] == ' ')
+//@   ensures result1 == nil && data[off(row.AppName) - off(data) + len(row.AppName)] != '[' ==> off(row.Message) == off(row.AppName) + len(row.AppName) + 1 || (off(row.Message) == off(row.AppName) + len(row.AppName) + 2 && data[off(row.Message) - off(data) - 1] == ' ')
+//@   cover at "row.Message = data" len(row.ProcID) > 0 && len(data) > 0 && len(row.Hostname) > 0 && len(row.AppName) > 0
+//@   cover at "row.Message = data" len(row.ProcID) == 0 && len(data) > 0 && len(row.Hostname) > 0 && len(row.AppName) > 0
+//@   callee syslogParsePriority(b) (p, o, e)
+//@     set gpri := p
+//@   callee syslogFacilityFromPriority(p, f) (r)
+//@     requires p == gpri && f == d.params.facilityFormat
+//@     set gfac := r
+//@   callee syslogSeverityFromPriority(p, f) (r)
+//@     requires p == gpri && f == d.params.severityFormat
+//@     set gsev := r
+//@   callee IndexAny(b, chars) (r)
+//@     requires chars == "[: "
+//@     ensures r >= 0 ==> (b[r] == '[' || b[r] == ':' || b[r] == ' ') && nochr(b[:r], '[') && nochr(b[:r], ':') && nochr(b[:r], ' ')
+
+// RFC3164 timestamp "Mmm dd hh:mm:ss " (time.Stamp plus the space behind it): accepted
+// exactly when the 16 bytes have that shape - capital + two small letters, day with a
+// leading space or digit, two-digit hour 00-23, minute and second 00-59.
 
 //@ func (*syslogRFC3164Decoder).validateTimestamp
 //@   pure
 //@   ensures result ==> len(ts) >= 16
+//@   ensures result ==> ts[3] == ' ' && ts[6] == ' ' && ts[9] == ':' && ts[12] == ':' && ts[15] == ' '
+//@   ensures result ==> 'A' <= ts[0] && ts[0] <= 'Z' && 'a' <= ts[1] && ts[1] <= 'z' && 'a' <= ts[2] && ts[2] <= 'z'
+//@   ensures result ==> (ts[4] == ' ' || ('0' <= ts[4] && ts[4] <= '9')) && '0' <= ts[5] && ts[5] <= '9'
+//@   ensures result ==> allchr(ts[7:9], '0', '9') && allchr(ts[10:12], '0', '9') && allchr(ts[13:15], '0', '9')
+//@   ensures result ==> (ts[7] - '0') * 10 + (ts[8] - '0') <= 23 && (ts[10] - '0') * 10 + (ts[11] - '0') <= 59 && (ts[13] - '0') * 10 + (ts[14] - '0') <= 59
+//@   ensures len(ts) >= 16 && ts[3] == ' ' && ts[6] == ' ' && ts[9] == ':' && ts[12] == ':' && ts[15] == ' '
+//@   +   && 'A' <= ts[0] && ts[0] <= 'Z' && 'a' <= ts[1] && ts[1] <= 'z' && 'a' <= ts[2] && ts[2] <= 'z'
+//@   +   && (ts[4] == ' ' || ('0' <= ts[4] && ts[4] <= '9')) && '0' <= ts[5] && ts[5] <= '9'
+//@   +   && allchr(ts[7:9], '0', '9') && allchr(ts[10:12], '0', '9') && allchr(ts[13:15], '0', '9')
+//@   +   && (ts[7] - '0') * 10 + (ts[8] - '0') <= 23 && (ts[10] - '0') * 10 + (ts[11] - '0') <= 59 && (ts[13] - '0') * 10 + (ts[14] - '0') <= 59 ==> result
+
+// RFC5424 Decode, faithfulness.  <PRI>VERSION TIMESTAMP HOST APP PROC MSGID SD MSG
+//   Priority as for RFC3164; ProtoVersion = the digits between '>' and the next space;
+//   each of Timestamp, Hostname, AppName, ProcID, MsgID starts where the previous header
+//   field ended (g0..g4: where the five reads started, relative positions in the line):
+//   it is either absent - the line has "- " there - or the bytes up to the next space;
+//   Message = what follows the structured data (gsd: its end), minus one leading space
+//   and possibly a 3-byte byte order mark (the mark's bytes are a package variable, whose
+//   contents the verifier does not know), up to the end of the line without its newline.
+// Structured data itself lives in Go maps, which govc does not model: not stated.
+// Two cover clauses say that lines are accepted at all (all header fields absent; all
+// but the timestamp present) - a change that rejects every such line would otherwise
+// satisfy every implication above.  (A cover through an accepted timestamp needs a
+// model of its whole shape and took the solvers 0.6-5 s: left out, it would be flaky.)
 
 //@ func (*syslogRFC5424Decoder).Decode
 //@   pure
+//@   ghost gpri int = 0
+//@   ghost gfac seq = ""
+//@   ghost gsev seq = ""
+//@   ghost nrd int = 0
+//@   ghost g0 int = 0
+//@   ghost g1 int = 0
+//@   ghost g2 int = 0
+//@   ghost g3 int = 0
+//@   ghost g4 int = 0
+//@   ghost gsdb int = 0
+//@   ghost gsd int = 0
+//@   ensures typeis(result0, "github.com/ozontech/file.d/decoder.SyslogRFC5424Row")
+//@   ensures result1 == nil ==> sameblock(row.Priority, data) && off(row.Priority) == off(data) + 1 && 1 <= len(row.Priority) && len(row.Priority) <= 3
+//@   ensures result1 == nil ==> data[0] == '<' && data[1 + len(row.Priority)] == '>' && allchr(row.Priority, '0', '9')
+//@   ensures result1 == nil ==> row.Facility == gfac && row.Severity == gsev
+//@   ensures result1 == nil ==> sameblock(row.ProtoVersion, data) && off(row.ProtoVersion) == off(row.Priority) + len(row.Priority) + 1 && len(row.ProtoVersion) >= 1 && allchr(row.ProtoVersion, '0', '9')
+//@   ensures result1 == nil ==> data[off(row.ProtoVersion) - off(data) + len(row.ProtoVersion)] == ' ' && nrd == 5 && g0 == off(row.ProtoVersion) + len(row.ProtoVersion) + 1
+//@   ensures result1 == nil ==> g1 == g0 + ite(len(row.Timestamp) > 0, len(row.Timestamp) + 1, 2) && g2 == g1 + ite(len(row.Hostname) > 0, len(row.Hostname) + 1, 2)
+//@   ensures result1 == nil ==> g3 == g2 + ite(len(row.AppName) > 0, len(row.AppName) + 1, 2) && g4 == g3 + ite(len(row.ProcID) > 0, len(row.ProcID) + 1, 2) && gsdb == g4 + ite(len(row.MsgID) > 0, len(row.MsgID) + 1, 2)
+//@   ensures result1 == nil && len(row.Timestamp) > 0 ==> sameblock(row.Timestamp, data) && off(row.Timestamp) == g0 && nochr(row.Timestamp, ' ') && data[g0 - off(data) + len(row.Timestamp)] == ' '
+//@   ensures result1 == nil && len(row.Timestamp) == 0 ==> data[g0 - off(data)] == '-' && data[g0 - off(data) + 1] == ' '
+//@   ensures result1 == nil && len(row.Hostname) > 0 ==> sameblock(row.Hostname, data) && off(row.Hostname) == g1 && nochr(row.Hostname, ' ') && data[g1 - off(data) + len(row.Hostname)] == ' '
+//@   ensures result1 == nil && len(row.Hostname) == 0 ==> data[g1 - off(data)] == '-' && data[g1 - off(data) + 1] == ' '
+//@   ensures result1 == nil && len(row.AppName) > 0 ==> sameblock(row.AppName, data) && off(row.AppName) == g2 && nochr(row.AppName, ' ') && data[g2 - off(data) + len(row.AppName)] == ' '
+//@   ensures result1 == nil && len(row.AppName) == 0 ==> data[g2 - off(data)] == '-' && data[g2 - off(data) + 1] == ' '
+//@   ensures result1 == nil && len(row.ProcID) > 0 ==> sameblock(row.ProcID, data) && off(row.ProcID) == g3 && nochr(row.ProcID, ' ') && data[g3 - off(data) + len(row.ProcID)] == ' '
+//@   ensures result1 == nil && len(row.ProcID) == 0 ==> data[g3 - off(data)] == '-' && data[g3 - off(data) + 1] == ' '
+//@   ensures result1 == nil && len(row.MsgID) > 0 ==> sameblock(row.MsgID, data) && off(row.MsgID) == g4 && nochr(row.MsgID, ' ') && data[g4 - off(data) + len(row.MsgID)] == ' '
+//@   ensures result1 == nil && len(row.MsgID) == 0 ==> data[g4 - off(data)] == '-' && data[g4 - off(data) + 1] == ' '
+//@   ensures result1 == nil && len(row.Message) > 0 ==> sameblock(row.Message, data) && off(row.Message) + len(row.Message) == off(data) + len(data) - ite(data[len(data) - 1] == '\n', 1, 0)
+//@   ensures result1 == nil && len(row.Message) > 0 ==> off(row.Message) == gsd + 1 + ite(data[gsd + 1 - off(data)] == ' ', 1, 0) || off(row.Message) == gsd + 4 + ite(data[gsd + 1 - off(data)] == ' ', 1, 0)
+//@   ensures result1 == nil && len(row.Message) == 0 ==> gsd + 5 >= off(data) + len(data) - ite(data[len(data) - 1] == '\n', 1, 0)
+//@   cover at "row.Message = data" len(row.Timestamp) == 0 && len(row.Hostname) == 0 && len(row.AppName) == 0 && len(row.ProcID) == 0 && len(row.MsgID) == 0
+//@   cover at "row.Message = data" len(row.Timestamp) == 0 && len(row.Hostname) > 0 && len(row.AppName) > 0 && len(row.ProcID) > 0 && len(row.MsgID) > 0
+//@   callee syslogParsePriority(b) (p, o, e)
+//@     set gpri := p
+//@   callee syslogFacilityFromPriority(p, f) (r)
+//@     requires p == gpri && f == d.params.facilityFormat
+//@     set gfac := r
+//@   callee syslogSeverityFromPriority(p, f) (r)
+//@     requires p == gpri && f == d.params.severityFormat
+//@     set gsev := r
+//@   callee readUntilSpaceOrNilValue(b) (o, ok)
+//@     requires nrd < 5 && sameblock(b, data)
+//@     set nrd := nrd + 1
+//@     set g0 := ite(nrd == 0, off(b), g0)
+//@     set g1 := ite(nrd == 1, off(b), g1)
+//@     set g2 := ite(nrd == 2, off(b), g2)
+//@     set g3 := ite(nrd == 3, off(b), g3)
+//@     set g4 := ite(nrd == 4, off(b), g4)
+//@   callee parseStructuredData(b) (sd, o, ok)
+//@     requires nrd == 5 && sameblock(b, data)
+//@     set gsdb := off(b)
+//@     set gsd := off(b) + o
+
+// RFC5424 timestamp (RFC3339): an accepted timestamp starts with yyyy-mm-ddThh:mm:ss,
+// all digits, month 01-12, day 01-31, hour 00-23, minute / second 00-59, and has at
+// least one more byte (the zone).  (Fraction and zone are validated by the code; their
+// position depends on the fraction's length and is not restated here.)
 
 //@ func (*syslogRFC5424Decoder).validateTimestamp
 //@   pure
+//@   ensures result ==> len(ts) >= 20 && ts[4] == '-' && ts[7] == '-' && ts[10] == 'T' && ts[13] == ':' && ts[16] == ':'
+//@   ensures result ==> allchr(ts[:4], '0', '9') && allchr(ts[5:7], '0', '9') && allchr(ts[8:10], '0', '9') && allchr(ts[11:13], '0', '9') && allchr(ts[14:16], '0', '9') && allchr(ts[17:19], '0', '9')
+//@   ensures result ==> 1 <= (ts[5] - '0') * 10 + (ts[6] - '0') && (ts[5] - '0') * 10 + (ts[6] - '0') <= 12 && 1 <= (ts[8] - '0') * 10 + (ts[9] - '0') && (ts[8] - '0') * 10 + (ts[9] - '0') <= 31
+//@   ensures result ==> (ts[11] - '0') * 10 + (ts[12] - '0') <= 23 && (ts[14] - '0') * 10 + (ts[15] - '0') <= 59 && (ts[17] - '0') * 10 + (ts[18] - '0') <= 59
 //@   loop 1 invariant 2 <= i && i <= len(ts)
 
 //@ func (*syslogRFC5424Decoder).parseStructuredData
@@ -96,6 +377,7 @@ package decoder
 
 //@ func (*CSVDecoder).Decode
 //@   modifies data
+//@   ensures result1 == nil ==> typeis(result0, "github.com/ozontech/file.d/decoder.CSVRow")
 //@   loop 1 invariant !isnil(buffers) && fresh(buffers) && (isnil(buffers.recordBuffer) || fresh(buffers.recordBuffer)) && (isnil(buffers.fieldIndexes) || fresh(buffers.fieldIndexes))
 //@   loop 1 invariant allrange(buffers.fieldIndexes, 0, len(buffers.recordBuffer) + 1) && nondecreasing(buffers.fieldIndexes)
 //@   loop 2 invariant !isnil(buffers) && fresh(buffers) && (isnil(buffers.recordBuffer) || fresh(buffers.recordBuffer)) && (isnil(buffers.fieldIndexes) || fresh(buffers.fieldIndexes))
@@ -116,13 +398,22 @@ package decoder
 //@ func atoi
 //@   pure
 //@   ensures result1 ==> result0 >= 0
-//@   loop 1 invariant x >= 0
+//@   ensures result1 == (len(b) > 0 && allchr(b, '0', '9'))
+//@   ensures result1 && len(b) == 1 ==> result0 == b[0] - '0'
+//@   ensures result1 && len(b) == 2 ==> result0 == (b[0] - '0') * 10 + (b[1] - '0')
+//@   ensures result1 && len(b) == 3 ==> result0 == (b[0] - '0') * 100 + (b[1] - '0') * 10 + (b[2] - '0')
+//@   loop 1 invariant x >= 0 && rangeindex < len(b) && allchr(b[:rangeindex + 1], '0', '9')
+//@   loop 1 invariant (rangeindex == -1 ==> x == 0) && (rangeindex == 0 ==> x == b[0] - '0') && (rangeindex == 1 ==> x == (b[0] - '0') * 10 + (b[1] - '0'))
+//@   loop 1 invariant rangeindex == 2 ==> x == (b[0] - '0') * 100 + (b[1] - '0') * 10 + (b[2] - '0')
 
 //@ func checkNumber
 //@   pure
+//@   ensures result ==> len(num) > 0 && allchr(num, '0', '9')
+//@   ensures len(num) == 2 ==> result == (allchr(num, '0', '9') && minimum <= (num[0] - '0') * 10 + (num[1] - '0') && (num[0] - '0') * 10 + (num[1] - '0') <= maximum)
 
 //@ func isDigit
 //@   pure
+//@   ensures result == ('0' <= c && c <= '9')
 
 // jsonCutLen (json_max_fields_size): the kept prefix of the escaped string is
 // within the string and within the limit; every index is in range.
@@ -186,3 +477,812 @@ package decoder
 //@   ensures result1 == nil ==> (len(as(result0, "jsonDecoder").params.maxFieldsSize) >= 2 ==> as(result0, "jsonDecoder").mu != nil)
 //@   callee extractJsonParams(p) (r, e)
 //@     pure
+
+// ---------------------------------------------------------------------------
+// C12, configuration: the decoder names are exactly the documented ones
+// (json, raw, cri, postgres, nginx_error, protobuf, syslog_rfc3164,
+// syslog_rfc5424, csv, auto); any other string is "no decoder".
+
+//@ func TypeFromString
+//@   pure
+//@   ensures s == "json" ==> result == JSON
+//@   ensures s == "raw" ==> result == RAW
+//@   ensures s == "cri" ==> result == CRI
+//@   ensures s == "postgres" ==> result == POSTGRES
+//@   ensures s == "nginx_error" ==> result == NGINX_ERROR
+//@   ensures s == "protobuf" ==> result == PROTOBUF
+//@   ensures s == "syslog_rfc3164" ==> result == SYSLOG_RFC3164
+//@   ensures s == "syslog_rfc5424" ==> result == SYSLOG_RFC5424
+//@   ensures s == "csv" ==> result == CSV
+//@   ensures s == "auto" ==> result == AUTO
+//@   ensures s != "json" && s != "raw" && s != "cri" && s != "postgres" && s != "nginx_error" && s != "protobuf" && s != "syslog_rfc3164" && s != "syslog_rfc5424" && s != "csv" && s != "auto" ==> result == NO
+
+// ---------------------------------------------------------------------------
+// C12, the ToJson wrappers ("a well-formed line yields exactly its fields", "a
+// rejected line reports an error" and leaves the event as it was).
+//
+// Common scheme.  The row decoder is called once, on the caller's bytes.  If it
+// reports an error, an error is returned and the root is not touched (no call on
+// it at all; which error value is returned is not prescribed - wrapping it is fine).
+// Otherwise every documented field is added exactly once
+// (c_<name> counts AddFieldNoAlloc calls per name, c_other counts names that are
+// not documented), each added node gets its value before the next field is
+// added (pending / gnode), and the value is the very view the row decoder
+// returned for that field (uf_view(ref, off, len) is uninterpreted: the equality
+// can only be proved for identical views).  The order of the fields is free.
+// Assumed (listed): insane-json's AddFieldNoAlloc / MutateTo* write only the
+// tree's own nodes and buffers, never the caller's byte slices.
+
+// postgres (documented in the comment of DecodePostgresToJson): time, pid,
+// pid_message_number, client, db, user, log.
+
+//@ func DecodePostgresToJson
+//@   modifies data
+//@   ghost gdec int = 0
+//@   ghost gerr bool = false
+//@   ghost pending bool = false
+//@   ghost gnode int = 0
+//@   ghost cur int = 0
+//@   ghost c_time int = 0
+//@   ghost c_pid int = 0
+//@   ghost c_pmn int = 0
+//@   ghost c_client int = 0
+//@   ghost c_db int = 0
+//@   ghost c_user int = 0
+//@   ghost c_log int = 0
+//@   ghost c_other int = 0
+//@   ghost v_time int = 0
+//@   ghost v_pid int = 0
+//@   ghost v_pmn int = 0
+//@   ghost v_client int = 0
+//@   ghost v_db int = 0
+//@   ghost v_user int = 0
+//@   ghost v_log int = 0
+//@   ensures gdec == 1 && !pending
+//@   ensures gerr ==> result != nil
+//@   ensures gerr ==> c_time + c_pid + c_pmn + c_client + c_db + c_user + c_log + c_other == 0
+//@   ensures !gerr ==> result == nil
+//@   ensures !gerr ==> c_time == 1 && c_pid == 1 && c_pmn == 1 && c_client == 1 && c_db == 1 && c_user == 1 && c_log == 1 && c_other == 0
+//@   callee DecodePostgres(d) (row, e)
+//@     requires gdec == 0 && d == data
+//@     set gdec := gdec + 1
+//@     set gerr := e != nil
+//@     set v_time := uf_view(ref(row.Time), off(row.Time), len(row.Time))
+//@     set v_pid := uf_view(ref(row.PID), off(row.PID), len(row.PID))
+//@     set v_pmn := uf_view(ref(row.PIDMessageNumber), off(row.PIDMessageNumber), len(row.PIDMessageNumber))
+//@     set v_client := uf_view(ref(row.Client), off(row.Client), len(row.Client))
+//@     set v_db := uf_view(ref(row.DB), off(row.DB), len(row.DB))
+//@     set v_user := uf_view(ref(row.User), off(row.User), len(row.User))
+//@     set v_log := uf_view(ref(row.Log), off(row.Log), len(row.Log))
+//@   callee AddFieldNoAlloc(r, name) (n)
+//@     requires gdec == 1
+//@     requires !gerr
+//@     requires !pending
+//@     requires r == root
+//@     requires recv == root.Node
+//@     pure
+//@     set pending := true
+//@     set gnode := ref(n)
+//@     set cur := ite(name == "time", 1, ite(name == "pid", 2, ite(name == "pid_message_number", 3, ite(name == "client", 4, ite(name == "db", 5, ite(name == "user", 6, ite(name == "log", 7, 0)))))))
+//@     set c_time := c_time + ite(name == "time", 1, 0)
+//@     set c_pid := c_pid + ite(name == "pid", 1, 0)
+//@     set c_pmn := c_pmn + ite(name == "pid_message_number", 1, 0)
+//@     set c_client := c_client + ite(name == "client", 1, 0)
+//@     set c_db := c_db + ite(name == "db", 1, 0)
+//@     set c_user := c_user + ite(name == "user", 1, 0)
+//@     set c_log := c_log + ite(name == "log", 1, 0)
+//@     set c_other := c_other + ite(name != "time" && name != "pid" && name != "pid_message_number" && name != "client" && name != "db" && name != "user" && name != "log", 1, 0)
+//@   callee MutateToBytesCopy(r, v)
+//@     requires pending && ref(recv) == gnode && r == root
+//@     requires cur == 1 ==> uf_view(ref(v), off(v), len(v)) == v_time
+//@     requires cur == 2 ==> uf_view(ref(v), off(v), len(v)) == v_pid
+//@     requires cur == 3 ==> uf_view(ref(v), off(v), len(v)) == v_pmn
+//@     requires cur == 4 ==> uf_view(ref(v), off(v), len(v)) == v_client
+//@     requires cur == 5 ==> uf_view(ref(v), off(v), len(v)) == v_db
+//@     requires cur == 6 ==> uf_view(ref(v), off(v), len(v)) == v_user
+//@     requires cur == 7 ==> uf_view(ref(v), off(v), len(v)) == v_log
+//@     pure
+//@     set pending := false
+
+// syslog (documented in the comments of the two DecodeToJson methods): priority,
+// facility, severity always; proto_version, timestamp, hostname, app_name,
+// process_id, message_id, message exactly when the row has them (non-empty); then
+// one object per structured-data element, holding its parameters.
+// A top-level field is counted when its value is written (bytes / string), so that
+// an SD element (its node becomes an object) is not mistaken for a header field.
+// ptop: the pending node was added to the root object itself; gobj: the latest SD object.
+// Assumed about insane-json (listed): AddFieldNoAlloc returns a child node (never the
+// root object's own node), MutateToObject returns the node it was called on.
+
+//@ func syslogDecodeToJson
+//@   pure
+//@   ghost pending bool = false
+//@   ghost ptop bool = false
+//@   ghost gnode int = 0
+//@   ghost gobj int = 0
+//@   ghost cur int = 0
+//@   ghost c_pri int = 0
+//@   ghost c_fac int = 0
+//@   ghost c_sev int = 0
+//@   ghost c_ver int = 0
+//@   ghost c_ts int = 0
+//@   ghost c_host int = 0
+//@   ghost c_app int = 0
+//@   ghost c_proc int = 0
+//@   ghost c_msgid int = 0
+//@   ghost c_msg int = 0
+//@   ensures !pending
+//@   ensures c_pri == 1 && c_fac == 1 && c_sev == 1
+//@   ensures c_ver == ite(len(row.ProtoVersion) > 0, 1, 0) && c_ts == ite(len(row.Timestamp) > 0, 1, 0) && c_host == ite(len(row.Hostname) > 0, 1, 0)
+//@   ensures c_app == ite(len(row.AppName) > 0, 1, 0) && c_proc == ite(len(row.ProcID) > 0, 1, 0) && c_msgid == ite(len(row.MsgID) > 0, 1, 0) && c_msg == ite(len(row.Message) > 0, 1, 0)
+//@   loop 1 invariant !pending && c_pri == 1 && c_fac == 1 && c_sev == 1
+//@   loop 1 invariant c_ver == ite(len(row.ProtoVersion) > 0, 1, 0) && c_ts == ite(len(row.Timestamp) > 0, 1, 0) && c_host == ite(len(row.Hostname) > 0, 1, 0)
+//@   loop 1 invariant c_app == ite(len(row.AppName) > 0, 1, 0) && c_proc == ite(len(row.ProcID) > 0, 1, 0) && c_msgid == ite(len(row.MsgID) > 0, 1, 0) && c_msg == ite(len(row.Message) > 0, 1, 0)
+//@   loop 2 invariant !pending && c_pri == 1 && c_fac == 1 && c_sev == 1
+//@   loop 2 invariant c_ver == ite(len(row.ProtoVersion) > 0, 1, 0) && c_ts == ite(len(row.Timestamp) > 0, 1, 0) && c_host == ite(len(row.Hostname) > 0, 1, 0)
+//@   loop 2 invariant c_app == ite(len(row.AppName) > 0, 1, 0) && c_proc == ite(len(row.ProcID) > 0, 1, 0) && c_msgid == ite(len(row.MsgID) > 0, 1, 0) && c_msg == ite(len(row.Message) > 0, 1, 0)
+//@   loop 2 invariant ref(obj) == gobj && gobj != ref(root.Node)
+//@   callee AddFieldNoAlloc(r, name) (n)
+//@     requires !pending && r == root
+//@     requires recv == root.Node || ref(recv) == gobj
+//@     pure
+//@     ensures ref(n) != ref(root.Node)
+//@     set pending := true
+//@     set ptop := ref(recv) == ref(root.Node)
+//@     set gnode := ref(n)
+//@     set cur := ite(name == "priority", 1, ite(name == "facility", 2, ite(name == "severity", 3, ite(name == "proto_version", 4, ite(name == "timestamp", 5, ite(name == "hostname", 6, ite(name == "app_name", 7, ite(name == "process_id", 8, ite(name == "message_id", 9, ite(name == "message", 10, 0))))))))))
+//@   callee MutateToBytesCopy(r, v)
+//@     requires pending && ref(recv) == gnode && r == root
+//@     requires ptop ==> cur == 1 || (4 <= cur && cur <= 10)
+//@     requires ptop && cur == 1 ==> v == row.Priority
+//@     requires ptop && cur == 4 ==> v == row.ProtoVersion && len(v) > 0
+//@     requires ptop && cur == 5 ==> v == row.Timestamp && len(v) > 0
+//@     requires ptop && cur == 6 ==> v == row.Hostname && len(v) > 0
+//@     requires ptop && cur == 7 ==> v == row.AppName && len(v) > 0
+//@     requires ptop && cur == 8 ==> v == row.ProcID && len(v) > 0
+//@     requires ptop && cur == 9 ==> v == row.MsgID && len(v) > 0
+//@     requires ptop && cur == 10 ==> v == row.Message && len(v) > 0
+//@     pure
+//@     set pending := false
+//@     set c_pri := c_pri + ite(ptop && cur == 1, 1, 0)
+//@     set c_ver := c_ver + ite(ptop && cur == 4, 1, 0)
+//@     set c_ts := c_ts + ite(ptop && cur == 5, 1, 0)
+//@     set c_host := c_host + ite(ptop && cur == 6, 1, 0)
+//@     set c_app := c_app + ite(ptop && cur == 7, 1, 0)
+//@     set c_proc := c_proc + ite(ptop && cur == 8, 1, 0)
+//@     set c_msgid := c_msgid + ite(ptop && cur == 9, 1, 0)
+//@     set c_msg := c_msg + ite(ptop && cur == 10, 1, 0)
+//@   callee MutateToString(s)
+//@     requires pending && ref(recv) == gnode && ptop && (cur == 2 || cur == 3)
+//@     requires cur == 2 ==> s == row.Facility
+//@     requires cur == 3 ==> s == row.Severity
+//@     pure
+//@     set pending := false
+//@     set c_fac := c_fac + ite(cur == 2, 1, 0)
+//@     set c_sev := c_sev + ite(cur == 3, 1, 0)
+//@   callee MutateToObject() (o)
+//@     requires pending && ref(recv) == gnode && ptop
+//@     pure
+//@     ensures ref(o) == ref(recv)
+//@     set pending := false
+//@     set gobj := ref(o)
+
+// The two syslog DecodeToJson methods: Decode once on the caller's bytes; if it fails an
+// error is returned and nothing is written; otherwise syslogDecodeToJson is called
+// exactly once on the caller's root.  For RFC3164 the row handed on has no RFC5424-only
+// parts (proto_version, message_id, structured data stay absent).
+// Tool limit: the row travels through `any`; govc does not model the payload of an
+// interface holding a struct, so "the row written is the row decoded" is not stated.
+
+//@ func (*syslogRFC3164Decoder).DecodeToJson
+//@   pure
+//@   ghost gdec int = 0
+//@   ghost gerr bool = false
+//@   ghost nout int = 0
+//@   ensures gdec == 1
+//@   ensures gerr ==> result != nil && nout == 0
+//@   ensures !gerr ==> result == nil && nout == 1
+//@   callee Decode(b) (r, e)
+//@     requires gdec == 0 && b == data
+//@     set gdec := gdec + 1
+//@     set gerr := e != nil
+//@   callee syslogDecodeToJson(rt, row)
+//@     requires gdec == 1 && !gerr && nout == 0 && rt == root
+//@     requires len(row.ProtoVersion) == 0 && len(row.MsgID) == 0 && isnil(row.StructuredData)
+//@     set nout := nout + 1
+//@   callee AddFieldNoAlloc(r, name)
+//@     requires false
+//@   callee DecodeBytes(b)
+//@     requires false
+
+//@ func (*syslogRFC5424Decoder).DecodeToJson
+//@   pure
+//@   ghost gdec int = 0
+//@   ghost gerr bool = false
+//@   ghost nout int = 0
+//@   ensures gdec == 1
+//@   ensures gerr ==> result != nil && nout == 0
+//@   ensures !gerr ==> result == nil && nout == 1
+//@   callee Decode(b) (r, e)
+//@     requires gdec == 0 && b == data
+//@     set gdec := gdec + 1
+//@     set gerr := e != nil
+//@   callee syslogDecodeToJson(rt, row)
+//@     requires gdec == 1 && !gerr && nout == 0 && rt == root
+//@     set nout := nout + 1
+//@   callee AddFieldNoAlloc(r, name)
+//@     requires false
+//@   callee DecodeBytes(b)
+//@     requires false
+
+// nginx error log (documented in the comment of DecodeToJson): time, level, pid, tid
+// always; cid and message exactly when the row has them; then one field per custom
+// field of the row (nginx_with_custom_fields), under its own key.
+// `row` is the local the decoded row is asserted into (the only handle on it: it comes
+// out of an `any`); incustom marks the custom-field loop (source anchor on its range
+// clause - a renamed local or a rewritten loop header makes these clauses undecided,
+// not failing).
+
+//@ func (*nginxErrorDecoder).DecodeToJson
+//@   pure
+//@   ghost gdec int = 0
+//@   ghost gerr bool = false
+//@   ghost pending bool = false
+//@   ghost incustom bool = false
+//@   ghost gnode int = 0
+//@   ghost cur int = 0
+//@   ghost c_time int = 0
+//@   ghost c_level int = 0
+//@   ghost c_pid int = 0
+//@   ghost c_tid int = 0
+//@   ghost c_cid int = 0
+//@   ghost c_msg int = 0
+//@   ghost c_other int = 0
+//@   setat "range row.CustomFields" incustom := true
+//@   ensures gdec == 1 && !pending
+//@   ensures gerr ==> result != nil
+//@   ensures gerr ==> c_time + c_level + c_pid + c_tid + c_cid + c_msg + c_other == 0
+//@   ensures !gerr ==> result == nil
+//@   ensures !gerr ==> c_time == 1 && c_level == 1 && c_pid == 1 && c_tid == 1 && c_other == 0
+//@   ensures !gerr ==> c_cid == ite(len(row.CID) > 0, 1, 0) && c_msg == ite(len(row.Message) > 0, 1, 0)
+//@   loop 1 invariant gdec == 1 && !gerr && !pending && incustom
+//@   loop 1 invariant c_time == 1 && c_level == 1 && c_pid == 1 && c_tid == 1 && c_other == 0
+//@   loop 1 invariant c_cid == ite(len(row.CID) > 0, 1, 0) && c_msg == ite(len(row.Message) > 0, 1, 0)
+//@   callee Decode(b) (r, e)
+//@     requires gdec == 0 && b == data
+//@     set gdec := gdec + 1
+//@     set gerr := e != nil
+//@   callee AddFieldNoAlloc(r, name) (n)
+//@     requires gdec == 1 && !gerr && !pending && r == root && recv == root.Node
+//@     pure
+//@     set pending := true
+//@     set gnode := ref(n)
+//@     set cur := ite(incustom, 7, ite(name == "time", 1, ite(name == "level", 2, ite(name == "pid", 3, ite(name == "tid", 4, ite(name == "cid", 5, ite(name == "message", 6, 0)))))))
+//@     set c_time := c_time + ite(!incustom && name == "time", 1, 0)
+//@     set c_level := c_level + ite(!incustom && name == "level", 1, 0)
+//@     set c_pid := c_pid + ite(!incustom && name == "pid", 1, 0)
+//@     set c_tid := c_tid + ite(!incustom && name == "tid", 1, 0)
+//@     set c_cid := c_cid + ite(!incustom && name == "cid", 1, 0)
+//@     set c_msg := c_msg + ite(!incustom && name == "message", 1, 0)
+//@     set c_other := c_other + ite(!incustom && name != "time" && name != "level" && name != "pid" && name != "tid" && name != "cid" && name != "message", 1, 0)
+//@   callee MutateToBytesCopy(r, v)
+//@     requires pending && ref(recv) == gnode && r == root
+//@     requires cur == 1 ==> v == row.Time
+//@     requires cur == 2 ==> v == row.Level
+//@     requires cur == 3 ==> v == row.PID
+//@     requires cur == 4 ==> v == row.TID
+//@     requires cur == 5 ==> v == row.CID && len(v) > 0
+//@     requires cur == 6 ==> v == row.Message && len(v) > 0
+//@     pure
+//@     set pending := false
+
+// CSV (decoder/readme.md): with `columns` the i-th field is named columns[i]; a field
+// beyond the configured columns (and every field when there are none) is named
+// {prefix}{i}.  A row whose length differs from the number of columns is an error in
+// the default mode, accepted in `continue`, fatal in `fatal`; without columns every
+// row is accepted.
+
+//@ func (*CSVDecoder).GenerateColumnName
+//@   pure
+//@   requires i >= 0
+//@   ghost nitoa int = 0
+//@   ghost gs seq = ""
+//@   ensures i < len(d.params.columnNames) ==> result == d.params.columnNames[i] && nitoa == 0
+//@   ensures i >= len(d.params.columnNames) ==> nitoa == 1 && len(result) == len(d.params.prefix) + len(gs)
+//@   ensures i >= len(d.params.columnNames) ==> result[:len(d.params.prefix)] == d.params.prefix && result[len(d.params.prefix):] == gs
+//@   callee Itoa(n) (r)
+//@     requires n == i && nitoa == 0
+//@     pure
+//@     set nitoa := nitoa + 1
+//@     set gs := r
+
+//@ func (*CSVDecoder).CheckInvalidLine
+//@   pure
+//@   option allow-exit yes
+//@   ghost nfatal int = 0
+//@   ensures len(d.params.columnNames) == 0 || len(row) == len(d.params.columnNames) ==> result == nil && nfatal == 0
+//@   ensures len(d.params.columnNames) != 0 && len(row) != len(d.params.columnNames) && d.params.invalidLineMode == "continue" ==> result == nil && nfatal == 0
+//@   ensures len(d.params.columnNames) != 0 && len(row) != len(d.params.columnNames) && d.params.invalidLineMode != "continue" && d.params.invalidLineMode != "fatal" ==> result != nil && nfatal == 0
+//@   ensures len(d.params.columnNames) != 0 && len(row) != len(d.params.columnNames) && d.params.invalidLineMode == "fatal" ==> nfatal == 1
+//@   callee Fatalf(f, a)
+//@     requires len(d.params.columnNames) != 0 && len(row) != len(d.params.columnNames) && d.params.invalidLineMode == "fatal"
+//@     pure
+//@     set nfatal := nfatal + 1
+
+// CSV DecodeToJson: Decode once on the caller's bytes, then the row-length check;
+// if either fails an error is returned and nothing is written.  Otherwise field i
+// of the row (i = 0 .. len-1, each exactly once, in order) is added under the name
+// GenerateColumnName(i) and gets the string row[i].  `row` is the local the decoded
+// row is asserted into (it comes out of an `any`, see the syslog note).
+
+//@ func (*CSVDecoder).DecodeToJson
+//@   modifies data
+//@   ghost gdec int = 0
+//@   ghost gerr bool = false
+//@   ghost gchk int = 0
+//@   ghost gcerr bool = false
+//@   ghost nadd int = 0
+//@   ghost ngen int = 0
+//@   ghost gname seq = ""
+//@   ghost pending bool = false
+//@   ghost gnode int = 0
+//@   ensures gdec == 1 && !pending
+//@   ensures gerr ==> result != nil && nadd == 0 && gchk == 0
+//@   ensures !gerr ==> gchk == 1
+//@   ensures !gerr && gcerr ==> result != nil && nadd == 0
+//@   ensures !gerr && !gcerr ==> result == nil && nadd == len(row) && ngen == nadd
+//@   loop 1 invariant gdec == 1 && !gerr && gchk == 1 && !gcerr && !pending && nadd == rangeindex + 1 && ngen == nadd && nadd <= len(row)
+//@   callee Decode(b) (r, e)
+//@     requires gdec == 0 && b == data
+//@     set gdec := gdec + 1
+//@     set gerr := e != nil
+//@   callee CheckInvalidLine(r) (e)
+//@     requires gdec == 1 && !gerr && gchk == 0 && r == row
+//@     set gchk := gchk + 1
+//@     set gcerr := e != nil
+//@   callee GenerateColumnName(k) (s)
+//@     requires gchk == 1 && !gcerr && !pending && ngen == nadd && k == nadd
+//@     set ngen := ngen + 1
+//@     set gname := s
+//@   callee AddFieldNoAlloc(r, name) (n)
+//@     requires gchk == 1 && !gcerr && !pending && r == root && recv == root.Node
+//@     requires ngen == nadd + 1 && name == gname
+//@     pure
+//@     set pending := true
+//@     set gnode := ref(n)
+//@     set nadd := nadd + 1
+//@   callee MutateToString(s)
+//@     requires pending && ref(recv) == gnode && 1 <= nadd && nadd <= len(row) && s == row[nadd - 1]
+//@     pure
+//@     set pending := false
+
+// JSON decoder entry points.  Decode needs the root as its first extra argument: with
+// no argument, or one that is not a *insaneJSON.Root, it reports an error and touches
+// neither the bytes nor any tree.  Otherwise (and always for DecodeToJson) the field
+// limits are applied once to the caller's bytes and exactly the bytes that come out
+// are parsed once, into the caller's root; the parser's node is returned, and an error
+// exactly when the parser reported one (a line that is not JSON is an error, never a panic of file.d code).
+// Fidelity of the parse itself is insane-json's (third party): not stated.
+
+//@ func (*jsonDecoder).Decode
+//@   option allow-exit yes
+//@   ghost ncut int = 0
+//@   ghost gcut int = 0
+//@   ghost ndec int = 0
+//@   ghost gn int = 0
+//@   ghost genil bool = false
+//@   ghost gisroot bool = typeis(args[0], "*github.com/ozontech/insane-json.Root")
+//@   ghost groot int = args[0].pay
+//@   ensures len(args) == 0 || !gisroot ==> result1 != nil && isnil(result0) && ncut == 0 && ndec == 0
+//@   ensures len(args) > 0 && gisroot ==> ncut == 1 && ndec == 1
+//@   ensures ndec == 1 ==> typeis(result0, "*github.com/ozontech/insane-json.Node") && result0.pay == gn && (result1 == nil) == genil
+//@   callee cutFieldsBySize(b) (r)
+//@     requires ncut == 0 && ndec == 0 && b == data
+//@     set ncut := ncut + 1
+//@     set gcut := uf_view(ref(r), off(r), len(r))
+//@   callee DecodeBytesAdditional(b) (n, e)
+//@     requires ncut == 1 && ndec == 0 && uf_view(ref(b), off(b), len(b)) == gcut
+//@     requires len(args) > 0 && gisroot && ref(recv) == groot
+//@     set ndec := ndec + 1
+//@     set gn := ref(n)
+//@     set genil := e == nil
+//@   callee DecodeBytes(b)
+//@     requires false
+
+//@ func (*jsonDecoder).DecodeToJson
+//@   option allow-exit yes
+//@   ghost ncut int = 0
+//@   ghost gcut int = 0
+//@   ghost ndec int = 0
+//@   ghost genil bool = false
+//@   ensures ncut == 1 && ndec == 1 && (result == nil) == genil
+//@   callee cutFieldsBySize(b) (r)
+//@     requires ncut == 0 && ndec == 0 && b == data
+//@     set ncut := ncut + 1
+//@     set gcut := uf_view(ref(r), off(r), len(r))
+//@   callee DecodeBytes(b) (e)
+//@     requires ncut == 1 && ndec == 0 && uf_view(ref(b), off(b), len(b)) == gcut && recv == root
+//@     set ndec := ndec + 1
+//@     set genil := e == nil
+//@   callee DecodeBytesAdditional(b)
+//@     requires false
+
+// ---------------------------------------------------------------------------
+// C12, decoder parameters (decoder/readme.md).  Each extract*Params looks up only its
+// documented keys, each exactly once (n_<key> / n_other count the lookups by key); an
+// absent key gives the documented default; a present key of the wrong type is an error;
+// nothing else is an error.  govc does not model map contents: what a lookup returns is
+// unconstrained, the ghosts record whether the key was present and the dynamic type of
+// its value.  Tool limit: the value a type assertion extracts from an interface is not
+// tied to the interface (except pointers and ints), so "the parameter's value is the
+// configured one" is stated only where the code's own validation makes it visible.
+
+// nginx_with_custom_fields: bool, default false.
+
+//@ func extractNginxErrorParams
+//@   pure
+//@   ghost n_wcf int = 0
+//@   ghost n_other int = 0
+//@   ghost p_wcf bool = false
+//@   ghost t_wcf bool = false
+//@   ensures n_wcf == 1 && n_other == 0
+//@   ensures !p_wcf ==> result1 == nil && !result0.withCustomFields
+//@   ensures p_wcf && !t_wcf ==> result1 != nil
+//@   ensures p_wcf && t_wcf ==> result1 == nil
+//@   callee maplookup:params(k) (v, ok)
+//@     set n_wcf := n_wcf + ite(k == "nginx_with_custom_fields", 1, 0)
+//@     set n_other := n_other + ite(k != "nginx_with_custom_fields", 1, 0)
+//@     set p_wcf := ite(k == "nginx_with_custom_fields", ok, p_wcf)
+//@     set t_wcf := ite(k == "nginx_with_custom_fields", typeis(v, "bool"), t_wcf)
+
+// syslog_facility_format / syslog_severity_format: string, one of number|string,
+// default number (both decoders).
+
+//@ func syslogPriorityFormatValidate
+//@   pure
+//@   ensures (result == nil) == (format == "number" || format == "string")
+
+//@ func extractSyslogParams
+//@   pure
+//@   ghost n_fac int = 0
+//@   ghost n_sev int = 0
+//@   ghost n_other int = 0
+//@   ghost p_fac bool = false
+//@   ghost t_fac bool = false
+//@   ghost p_sev bool = false
+//@   ghost t_sev bool = false
+//@   ensures n_other == 0 && n_fac == 1
+//@   ensures result1 == nil ==> n_sev == 1
+//@   ensures (p_fac && !t_fac) || (n_sev == 1 && p_sev && !t_sev) ==> result1 != nil
+//@   ensures result1 == nil ==> (result0.facilityFormat == "number" || result0.facilityFormat == "string") && (result0.severityFormat == "number" || result0.severityFormat == "string")
+//@   ensures result1 == nil && !p_fac ==> result0.facilityFormat == "number"
+//@   ensures result1 == nil && !p_sev ==> result0.severityFormat == "number"
+//@   ghost okf bool = true
+//@   ghost oks bool = true
+//@   ensures (!p_fac || (t_fac && okf)) && n_sev == 1 && (!p_sev || (t_sev && oks)) ==> result1 == nil
+//@   ensures !okf || !oks ==> result1 != nil
+//@   callee maplookup:params(k) (v, ok)
+//@     set n_fac := n_fac + ite(k == "syslog_facility_format", 1, 0)
+//@     set n_sev := n_sev + ite(k == "syslog_severity_format", 1, 0)
+//@     set n_other := n_other + ite(k != "syslog_facility_format" && k != "syslog_severity_format", 1, 0)
+//@     set p_fac := ite(k == "syslog_facility_format", ok, p_fac)
+//@     set t_fac := ite(k == "syslog_facility_format", typeis(v, "string"), t_fac)
+//@     set p_sev := ite(k == "syslog_severity_format", ok, p_sev)
+//@     set t_sev := ite(k == "syslog_severity_format", typeis(v, "string"), t_sev)
+//@   callee syslogPriorityFormatValidate(p, f) (e)
+//@     requires (p == "syslog_facility_format" && n_sev == 0 && p_fac && t_fac) || (p == "syslog_severity_format" && n_sev == 1 && p_sev && t_sev)
+//@     set okf := ite(p == "syslog_facility_format", e == nil, okf)
+//@     set oks := ite(p == "syslog_severity_format", e == nil, oks)
+
+// csv: columns ([]string, default empty), prefix (string, default ""), delimiter (one
+// byte, default ','; never NUL, quote, CR or LF - the row decoder relies on it),
+// invalid_line_mode (string, default "default").
+
+//@ func validDelim
+//@   pure
+//@   ensures result == (r != 0 && r != '"' && r != '\r' && r != '\n')
+
+//@ func extractCSVParams
+//@   pure
+//@   ghost n_cols int = 0
+//@   ghost n_prefix int = 0
+//@   ghost n_mode int = 0
+//@   ghost n_delim int = 0
+//@   ghost n_other int = 0
+//@   ghost p_cols bool = false
+//@   ghost t_cols bool = false
+//@   ghost p_prefix bool = false
+//@   ghost t_prefix bool = false
+//@   ghost p_mode bool = false
+//@   ghost t_mode bool = false
+//@   ghost p_delim bool = false
+//@   ghost t_delim bool = false
+//@   ensures n_other == 0 && n_cols == 1 && n_prefix <= 1 && n_mode <= 1 && n_delim <= 1
+//@   ensures result1 == nil ==> n_prefix == 1 && n_mode == 1 && n_delim == 1
+//@   ensures (p_cols && !t_cols) || (n_prefix == 1 && p_prefix && !t_prefix) || (n_mode == 1 && p_mode && !t_mode) || (n_delim == 1 && p_delim && !t_delim) ==> result1 != nil
+//@   ghost gncols int = 0
+//@   setat "range columnNamesRawSlice" gncols := len(columnNamesRawSlice)
+//@   ensures result1 == nil ==> len(result0.columnNames) == gncols
+//@   ensures result1 == nil && !p_cols ==> len(result0.columnNames) == 0
+//@   ensures result1 == nil && !p_prefix ==> result0.prefix == ""
+//@   ensures result1 == nil && !p_mode ==> result0.invalidLineMode == "default"
+//@   ensures result1 == nil && !p_delim ==> result0.delimiter == ','
+//@   ensures result1 == nil ==> result0.delimiter != 0 && result0.delimiter != '"' && result0.delimiter != '\r' && result0.delimiter != '\n'
+//@   ensures !p_cols && n_prefix == 1 && !p_prefix && n_mode == 1 && !p_mode && n_delim == 1 && !p_delim ==> result1 == nil
+//@   ghost nvalid int = 0
+//@   ghost gdel int = 0
+//@   ensures result1 == nil && p_delim ==> nvalid == 1 && result0.delimiter == gdel
+//@   callee validDelim(c) (r)
+//@     requires nvalid == 0 && n_delim == 1 && p_delim && t_delim && len(delimiterStr) == 1 && c == delimiterStr[0]
+//@     set nvalid := nvalid + 1
+//@     set gdel := c
+//@   loop 1 invariant n_other == 0 && n_cols == 1 && n_prefix == 0 && n_mode == 0 && n_delim == 0 && p_cols && t_cols
+//@   loop 1 invariant len(columnNames) == rangeindex + 1 && rangeindex < len(columnNamesRawSlice) && gncols == len(columnNamesRawSlice) && (isnil(columnNames) || fresh(columnNames))
+//@   callee maplookup:params(k) (v, ok)
+//@     set n_cols := n_cols + ite(k == "columns", 1, 0)
+//@     set n_prefix := n_prefix + ite(k == "prefix", 1, 0)
+//@     set n_mode := n_mode + ite(k == "invalid_line_mode", 1, 0)
+//@     set n_delim := n_delim + ite(k == "delimiter", 1, 0)
+//@     set n_other := n_other + ite(k != "columns" && k != "prefix" && k != "invalid_line_mode" && k != "delimiter", 1, 0)
+//@     set p_cols := ite(k == "columns", ok, p_cols)
+//@     set t_cols := ite(k == "columns", typeis(v, "[]any"), t_cols)
+//@     set p_prefix := ite(k == "prefix", ok, p_prefix)
+//@     set t_prefix := ite(k == "prefix", typeis(v, "string"), t_prefix)
+//@     set p_mode := ite(k == "invalid_line_mode", ok, p_mode)
+//@     set t_mode := ite(k == "invalid_line_mode", typeis(v, "string"), t_mode)
+//@     set p_delim := ite(k == "delimiter", ok, p_delim)
+//@     set t_delim := ite(k == "delimiter", typeis(v, "string"), t_delim)
+
+// json_max_fields_size: map {path}: {limit}, limit an integer (int, float64 or
+// json.Number, the forms a YAML / JSON configuration produces); any other value is an
+// error.  Every entry that is stored holds the integer anyToInt returned for it.
+// (float64 -> int is outside the tool's arithmetic: only "no error" is stated for it.)
+
+//@ func anyToInt
+//@   pure
+//@   ensures typeis(v, "int") ==> result1 == nil && result0 == v.pay
+//@   ensures typeis(v, "float64") ==> result1 == nil
+//@   ensures !typeis(v, "int") && !typeis(v, "float64") && !typeis(v, "encoding/json.Number") ==> result1 != nil
+//@   callee Int64() (n, e)
+//@     requires typeis(v, "encoding/json.Number")
+//@     pure
+
+//@ func extractJsonParams
+//@   pure
+//@   ghost n_mfs int = 0
+//@   ghost n_other int = 0
+//@   ghost p_mfs bool = false
+//@   ghost t_mfs bool = false
+//@   ghost glast int = 0
+//@   ghost glasterr bool = true
+//@   ghost nbad int = 0
+//@   ensures n_mfs == 1 && n_other == 0
+//@   ensures !p_mfs ==> result1 == nil
+//@   ensures p_mfs && !t_mfs ==> result1 != nil
+//@   ensures nbad > 0 ==> result1 != nil
+//@   ensures result1 == nil ==> !isnil(result0.maxFieldsSize) && fresh(result0.maxFieldsSize)
+//@   loop 1 invariant n_mfs == 1 && n_other == 0 && p_mfs && t_mfs && nbad == 0
+//@   callee maplookup:params(k) (v, ok)
+//@     set n_mfs := n_mfs + ite(k == "json_max_fields_size", 1, 0)
+//@     set n_other := n_other + ite(k != "json_max_fields_size", 1, 0)
+//@     set p_mfs := ite(k == "json_max_fields_size", ok, p_mfs)
+//@     set t_mfs := ite(k == "json_max_fields_size", typeis(v, "map[string]any"), t_mfs)
+//@   callee anyToInt(x) (n, e)
+//@     set glast := n
+//@     set glasterr := e != nil
+//@     set nbad := nbad + ite(e != nil, 1, 0)
+//@   callee mapupdate:maxFieldsSize(k, v)
+//@     requires !glasterr && v == glast
+
+// protobuf: proto_file (string, required), proto_message (string, required),
+// proto_import_paths (list of strings, optional).  A missing required key, or a value
+// of the wrong type, is an error; as many import paths come out as were configured.
+// (NewProtobufDecoder itself - protocompile, reflection - is outside the tool's reach.)
+
+//@ func extractProtobufParams
+//@   pure
+//@   ghost n_file int = 0
+//@   ghost n_msg int = 0
+//@   ghost n_imp int = 0
+//@   ghost n_other int = 0
+//@   ghost p_file bool = false
+//@   ghost t_file bool = false
+//@   ghost p_msg bool = false
+//@   ghost t_msg bool = false
+//@   ghost p_imp bool = false
+//@   ghost t_imp bool = false
+//@   ghost gnimp int = 0
+//@   setat "range importPathsSlice" gnimp := len(importPathsSlice)
+//@   ensures n_other == 0 && n_file == 1 && n_msg <= 1 && n_imp <= 1
+//@   ensures result1 == nil ==> n_msg == 1 && n_imp == 1
+//@   ensures !p_file || !t_file ==> result1 != nil
+//@   ensures n_msg == 1 && (!p_msg || !t_msg) ==> result1 != nil
+//@   ensures n_imp == 1 && p_imp && !t_imp ==> result1 != nil
+//@   ensures result1 == nil ==> len(result0.importPaths) == gnimp
+//@   ensures result1 == nil && !p_imp ==> isnil(result0.importPaths)
+//@   ensures p_file && t_file && n_msg == 1 && p_msg && t_msg && n_imp == 1 && !p_imp ==> result1 == nil
+//@   loop 1 invariant n_other == 0 && n_file == 1 && n_msg == 1 && n_imp == 1 && p_file && t_file && p_msg && t_msg && p_imp && t_imp
+//@   loop 1 invariant len(importPaths) == rangeindex + 1 && rangeindex < len(importPathsSlice) && gnimp == len(importPathsSlice) && (isnil(importPaths) || fresh(importPaths))
+//@   callee maplookup:params(k) (v, ok)
+//@     set n_file := n_file + ite(k == "proto_file", 1, 0)
+//@     set n_msg := n_msg + ite(k == "proto_message", 1, 0)
+//@     set n_imp := n_imp + ite(k == "proto_import_paths", 1, 0)
+//@     set n_other := n_other + ite(k != "proto_file" && k != "proto_message" && k != "proto_import_paths", 1, 0)
+//@     set p_file := ite(k == "proto_file", ok, p_file)
+//@     set t_file := ite(k == "proto_file", typeis(v, "string"), t_file)
+//@     set p_msg := ite(k == "proto_message", ok, p_msg)
+//@     set t_msg := ite(k == "proto_message", typeis(v, "string"), t_msg)
+//@     set p_imp := ite(k == "proto_import_paths", ok, p_imp)
+//@     set t_imp := ite(k == "proto_import_paths", typeis(v, "[]any"), t_imp)
+
+// ---------------------------------------------------------------------------
+// C12, construction.  Every New*Decoder parses its parameters once, from the map it
+// was given; a parameter error is an error of the constructor (no decoder comes out);
+// otherwise the decoder holds exactly the parsed parameters.
+
+//@ func NewNginxErrorDecoder
+//@   ghost nx int = 0
+//@   ghost gerr bool = false
+//@   ghost gwcf bool = false
+//@   ensures nx == 1
+//@   ensures gerr ==> result1 != nil && isnil(result0)
+//@   ensures !gerr ==> result1 == nil && typeis(result0, "*github.com/ozontech/file.d/decoder.nginxErrorDecoder") && as(result0, "nginxErrorDecoder").params.withCustomFields == gwcf
+//@   callee extractNginxErrorParams(p) (r, e)
+//@     requires nx == 0 && p == params
+//@     set nx := nx + 1
+//@     set gerr := e != nil
+//@     set gwcf := r.withCustomFields
+
+//@ func NewSyslogRFC3164Decoder
+//@   ghost nx int = 0
+//@   ghost gerr bool = false
+//@   ghost gfac seq = ""
+//@   ghost gsev seq = ""
+//@   ensures nx == 1
+//@   ensures gerr ==> result1 != nil && isnil(result0)
+//@   ensures !gerr ==> result1 == nil && typeis(result0, "*github.com/ozontech/file.d/decoder.syslogRFC3164Decoder")
+//@   ensures !gerr ==> as(result0, "syslogRFC3164Decoder").params.facilityFormat == gfac && as(result0, "syslogRFC3164Decoder").params.severityFormat == gsev
+//@   callee extractSyslogParams(p) (r, e)
+//@     requires nx == 0 && p == params
+//@     set nx := nx + 1
+//@     set gerr := e != nil
+//@     set gfac := r.facilityFormat
+//@     set gsev := r.severityFormat
+
+//@ func NewSyslogRFC5424Decoder
+//@   ghost nx int = 0
+//@   ghost gerr bool = false
+//@   ghost gfac seq = ""
+//@   ghost gsev seq = ""
+//@   ensures nx == 1
+//@   ensures gerr ==> result1 != nil && isnil(result0)
+//@   ensures !gerr ==> result1 == nil && typeis(result0, "*github.com/ozontech/file.d/decoder.syslogRFC5424Decoder")
+//@   ensures !gerr ==> as(result0, "syslogRFC5424Decoder").params.facilityFormat == gfac && as(result0, "syslogRFC5424Decoder").params.severityFormat == gsev
+//@   callee extractSyslogParams(p) (r, e)
+//@     requires nx == 0 && p == params
+//@     set nx := nx + 1
+//@     set gerr := e != nil
+//@     set gfac := r.facilityFormat
+//@     set gsev := r.severityFormat
+
+//@ func NewCSVDecoder
+//@   ghost nx int = 0
+//@   ghost gerr bool = false
+//@   ghost gdelim int = 0
+//@   ghost gprefix seq = ""
+//@   ghost gmode seq = ""
+//@   ghost gcols int = 0
+//@   ensures nx == 1
+//@   ensures gerr ==> result1 != nil && isnil(result0)
+//@   ensures !gerr ==> result1 == nil && typeis(result0, "*github.com/ozontech/file.d/decoder.CSVDecoder")
+//@   ensures !gerr ==> as(result0, "CSVDecoder").params.delimiter == gdelim && as(result0, "CSVDecoder").params.prefix == gprefix && as(result0, "CSVDecoder").params.invalidLineMode == gmode
+//@   ensures !gerr ==> uf_view(ref(as(result0, "CSVDecoder").params.columnNames), off(as(result0, "CSVDecoder").params.columnNames), len(as(result0, "CSVDecoder").params.columnNames)) == gcols
+//@   callee extractCSVParams(p) (r, e)
+//@     requires nx == 0 && p == params
+//@     set nx := nx + 1
+//@     set gerr := e != nil
+//@     set gdelim := r.delimiter
+//@     set gprefix := r.prefix
+//@     set gmode := r.invalidLineMode
+//@     set gcols := uf_view(ref(r.columnNames), off(r.columnNames), len(r.columnNames))
+
+// decoder.New: the constructor of the requested type, once, on the caller's parameters,
+// and its result as it is; raw / cri / postgres / auto need no decoder object (nil, no
+// error); any other type value is an error.
+
+//@ func New
+//@   ghost ncons int = 0
+//@   ghost gdt int = 0
+//@   ghost gdp int = 0
+//@   ghost get int = 0
+//@   ghost gep int = 0
+//@   ensures t == JSON || t == NGINX_ERROR || t == PROTOBUF || t == SYSLOG_RFC3164 || t == SYSLOG_RFC5424 || t == CSV ==> ncons == 1 && result0.tag == gdt && result0.pay == gdp && result1.tag == get && result1.pay == gep
+//@   ensures t == RAW || t == CRI || t == POSTGRES || t == AUTO ==> ncons == 0 && isnil(result0) && result1 == nil
+//@   ensures t != JSON && t != NGINX_ERROR && t != PROTOBUF && t != SYSLOG_RFC3164 && t != SYSLOG_RFC5424 && t != CSV && t != RAW && t != CRI && t != POSTGRES && t != AUTO ==> ncons == 0 && isnil(result0) && result1 != nil
+//@   callee NewJsonDecoder(p) (d, e)
+//@     requires ncons == 0 && t == JSON && p == params
+//@     set ncons := ncons + 1
+//@     set gdt := d.tag
+//@     set gdp := d.pay
+//@     set get := e.tag
+//@     set gep := e.pay
+//@   callee NewNginxErrorDecoder(p) (d, e)
+//@     requires ncons == 0 && t == NGINX_ERROR && p == params
+//@     set ncons := ncons + 1
+//@     set gdt := d.tag
+//@     set gdp := d.pay
+//@     set get := e.tag
+//@     set gep := e.pay
+//@   callee NewProtobufDecoder(p) (d, e)
+//@     requires ncons == 0 && t == PROTOBUF && p == params
+//@     set ncons := ncons + 1
+//@     set gdt := d.tag
+//@     set gdp := d.pay
+//@     set get := e.tag
+//@     set gep := e.pay
+//@   callee NewSyslogRFC3164Decoder(p) (d, e)
+//@     requires ncons == 0 && t == SYSLOG_RFC3164 && p == params
+//@     set ncons := ncons + 1
+//@     set gdt := d.tag
+//@     set gdp := d.pay
+//@     set get := e.tag
+//@     set gep := e.pay
+//@   callee NewSyslogRFC5424Decoder(p) (d, e)
+//@     requires ncons == 0 && t == SYSLOG_RFC5424 && p == params
+//@     set ncons := ncons + 1
+//@     set gdt := d.tag
+//@     set gdp := d.pay
+//@     set get := e.tag
+//@     set gep := e.pay
+//@   callee NewCSVDecoder(p) (d, e)
+//@     requires ncons == 0 && t == CSV && p == params
+//@     set ncons := ncons + 1
+//@     set gdt := d.tag
+//@     set gdp := d.pay
+//@     set get := e.tag
+//@     set gep := e.pay
+
+// protobuf decoder.  What proto.Unmarshal / protojson produce is third-party (not
+// stated).  Stated: a message that does not unmarshal, or does not marshal to JSON, is
+// an error and yields no bytes; otherwise the result is the marshalled JSON ([]byte).
+// DecodeToJson returns an error when Decode fails, without touching the root; otherwise it
+// parses exactly Decode's bytes into the caller's root, once.
+// (The error of that parse is dropped by the code - protojson output is valid JSON.)
+
+//@ func (*protobufDecoder).Decode
+//@   ghost num int = 0
+//@   ghost gunerr bool = false
+//@   ghost nmar int = 0
+//@   ghost gmerr bool = false
+//@   ghost gj int = 0
+//@   ensures num == 1
+//@   ensures gunerr ==> result1 != nil && isnil(result0) && nmar == 0
+//@   ensures !gunerr ==> nmar == 1
+//@   ensures !gunerr && gmerr ==> result1 != nil && isnil(result0)
+//@   ensures !gunerr && !gmerr ==> result1 == nil && typeis(result0, "[]byte")
+//@   ensures result1 == nil ==> typeis(result0, "[]byte")
+//@   callee Unmarshal(b, m) (e)
+//@     requires num == 0 && b == data
+//@     set num := num + 1
+//@     set gunerr := e != nil
+//@   callee Marshal(m) (j, e)
+//@     requires num == 1 && !gunerr && nmar == 0
+//@     set nmar := nmar + 1
+//@     set gmerr := e != nil
+
+//@ func (*protobufDecoder).DecodeToJson
+//@   ghost gdec int = 0
+//@   ghost gerr bool = false
+//@   ghost nparse int = 0
+//@   ensures gdec == 1
+//@   ensures gerr ==> result != nil && nparse == 0
+//@   ensures !gerr ==> result == nil && nparse == 1
+//@   callee Decode(b) (r, e)
+//@     requires gdec == 0 && b == data
+//@     set gdec := gdec + 1
+//@     set gerr := e != nil
+//@   callee DecodeBytes(b) (e)
+//@     requires gdec == 1 && !gerr && nparse == 0 && recv == root
+//@     set nparse := nparse + 1
+//@   callee AddFieldNoAlloc(r, name)
+//@     requires false
